@@ -92,6 +92,11 @@ func (propC19) Gen(seed uint64, tier string, idx int) *Plan {
 		}
 		p.Ops = append(p.Ops, op)
 	}
+	if fault && r.Chance(300) {
+		// "...and panics": some attempts panic between the gauge increment and the engine call
+		p.Panics = map[string]int{"proxy.attempt": pickS(r, []int{30, 100, 300})}
+		p.Sub += "/panics"
+	}
 	p.Deadline = 60 * time.Second
 	p.Settle = 4 * time.Second // read time-outs and disconnect grace periods must have run out
 	return p
@@ -207,10 +212,20 @@ func (propC19) Check(r *Run) []Violation {
 	if incs != decs {
 		add("C19/increments-not-matched", "%d increments, %d decrements at rest", incs, decs)
 	}
+	// an attempt that was made to panic by the simulator (before the engine's own code ran) never gets to
+	// record anything: at most that many records may be missing in total, never a record too many
+	fl, _ := r.Sim.Counters()
+	panics := fl["panic.proxy.attempt"]
+	missing := 0
 	for ep, n := range attempts {
-		if records[ep] != n {
+		if records[ep] > n || (records[ep] < n && panics == 0) {
 			add("C19/attempt-not-recorded-exactly-once", "endpoint %s: %d attempts but %d RecordRequest calls (engine %s)", ep, n, records[ep], r.Plan.Stack.Engine)
+		} else {
+			missing += n - records[ep]
 		}
+	}
+	if missing > panics {
+		add("C19/attempt-not-recorded-exactly-once", "%d attempts have no record although only %d were interrupted by an injected panic (engine %s)", missing, panics, r.Plan.Stack.Engine)
 	}
 	for ep, n := range records {
 		if _, ok := attempts[ep]; !ok && n > 0 && ep != "" {
@@ -295,7 +310,7 @@ func (propC19) Check(r *Run) []Violation {
 		add(class, "%d success records, %d responses delivered in full with 2xx (%d requests were abandoned by the client after a backend had started a 2xx answer); non-success clients: %s", successRecs, fullOK, abortAnswered, strings.Join(kinds, " "))
 	}
 	if anth > 0 {
-		if trTotal != anth {
+		if trTotal > anth || anth-trTotal > panics {
 			add("C19/translator-requests-not-recorded-once", "%d anthropic requests, %d translator events", anth, trTotal)
 		}
 		if trSuccess > anthOK {
